@@ -852,6 +852,7 @@ func (zl *zlexer) Next() (lex, bool) {
 				stri++
 
 				escape = false
+				zl.space = false
 				break
 			}
 
@@ -951,6 +952,7 @@ func (zl *zlexer) Next() (lex, bool) {
 				stri++
 
 				escape = false
+				zl.space = false
 				break
 			}
 
@@ -1066,6 +1068,7 @@ func (zl *zlexer) Next() (lex, bool) {
 				stri++
 
 				escape = false
+				zl.space = false
 				break
 			}
 
@@ -1086,6 +1089,7 @@ func (zl *zlexer) Next() (lex, bool) {
 				stri++
 
 				escape = false
+				zl.space = false
 				break
 			}
 
@@ -1125,6 +1129,7 @@ func (zl *zlexer) Next() (lex, bool) {
 				stri++
 
 				escape = false
+				zl.space = false
 				break
 			}
 
